@@ -213,7 +213,26 @@ fn accepted_after_edit_of_a_loaded_file(text: &str) -> bool {
     .unwrap_or(false)
 }
 
+/// C12 through a document: the text is the dataString of the only test of a .dig document (carriage
+/// returns written as character references, as an XML writer must); is the test loaded without a
+/// parse error?
+fn accepted_in_a_dig_document(text: &str) -> bool {
+    use crate::digxml::{self, Pin, PinKind};
+    let doc = digxml::render(&[Pin::new(PinKind::In, "A"), Pin::new(PinKind::In, "B"), Pin::new(PinKind::Out, "Q")], &[digxml::TestDesc { label: Some("t".into()), source: text.to_string(), extra: vec![] }]);
+    guard(DEFAULT_BUDGET, move || match dtr::dig::File::parse(&doc) {
+        Ok(f) => f.test_cases.len() == 1 && f.load_test(0).is_ok(),
+        Err(_) => false,
+    })
+    .unwrap_or(false)
+}
+
 fn check_text(mode: Mode, text: &str, order: u64, rendered: &mut HashSet<u64>, st: &mut Stats) -> ParseObs {
+    if mode == Mode::C12 && (order >> 60) >= 3 && (text.contains('\r') || !text.ends_with('\n') || order % 8 == 0) && !text.contains(|c: char| c.is_control() && c != '\r' && c != '\n' && c != '\t') && refgrammar::parse(text).is_err() {
+        st.witness("malformed_text_as_the_data_string_of_a_dig_document");
+        if accepted_in_a_dig_document(text) {
+            st.violation("accepted: malformed text (as the dataString of a .dig document)", order, format!("text ({} bytes): {:?}\nthe reference grammar rejects the text; a .dig document holding it as the source of its test loads that test", text.len(), text), || json!({"kind": "parse", "text": text, "expected": ["rejected"], "observed": ["accepted through dig::File::parse + load_test"]}));
+        }
+    }
     if mode == Mode::C12 && (order >> 60) >= 3 && refgrammar::parse(text).is_err() {
         st.witness("malformed_text_written_into_a_loaded_file");
         if accepted_after_edit_of_a_loaded_file(text) {
@@ -416,6 +435,24 @@ pub fn beyond_small_scope() -> Vec<String> {
         }
         out.push(format!("A B\n{lit} 0\n"));
         out.push(format!("A B\nbits({lit}, 1) 0\n"));
+    }
+    // (g) a header that is not followed by a line break, with carriage returns around it
+    for h in ["A B", "A B\r", "\r\nA B", "\nA B", "A\rB", "A B \r", " A B", "A B\t", "A B # c", "\r\n\r\nA B\r", "A B\r\r", "A", "A\r"] {
+        out.push(h.to_string());
+    }
+    // (f) every sequence of 2..=5 declarations over four names (in no particular alphabetical order):
+    // a name declared twice anywhere in the sequence, also with a loop or other statements in between
+    let dn = ["s", "c", "k", "a"];
+    for len in 2..=5u32 {
+        for code in 0..4u32.pow(len) {
+            let seq: Vec<&str> = (0..len).map(|j| dn[(code / 4u32.pow(j) % 4) as usize]).collect();
+            let decls: Vec<String> = seq.iter().enumerate().map(|(i, n)| format!("declare {n} = {i};")).collect();
+            out.push(format!("A B\n{}\n0 0\n", decls.join("\n")));
+            if len <= 3 {
+                out.push(format!("A B\n{}\nloop(i,2)\n{}\n0 0\nend loop\n", decls[0], decls[1..].join("\n0 1\n")));
+                out.push(format!("A B {}\n{}\n0 0 {}\n", seq[0], decls.join(" "), "X"));
+            }
+        }
     }
     out
 }
